@@ -1842,6 +1842,63 @@ func (p *Prog) closeBeforeReplaceFor(owner *types.Named, handleField, segField *
 			}
 		}
 	}
+	// R20e DELETE-REPORTS-ONLY-APPLIED: a method that applies a rewrite returns success only behind
+	// one of the operations that put the rewrite in place (what the caller then reports as deleted was
+	// really removed)
+	for _, fn := range p.Funcs {
+		if !srcFunc(fn) || recvNamed(fn) != owner || base[fn] {
+			continue
+		}
+		takesRewrite := false
+		for _, pr := range fn.Params {
+			if namedOf(derefPtr(pr.Type())) == r.RewriteSegment {
+				takesRewrite = true
+			}
+		}
+		if !takesRewrite {
+			continue
+		}
+		var applies []*ssa.Call
+		for _, b := range fn.Blocks {
+			for _, ins := range b.Instrs {
+				c, ok := ins.(*ssa.Call)
+				if !ok {
+					continue
+				}
+				g := c.Common().StaticCallee()
+				if g == nil || !inModule(g) || !changesFiles(g) {
+					continue
+				}
+				for _, a := range c.Common().Args {
+					if f, _ := loadedField(canon(a)); f == segField {
+						applies = append(applies, c)
+					}
+				}
+			}
+		}
+		ob := Ob{Rule: "R20", Inst: "e:reports-only-applied:" + funcLabel(fn), Props: []string{"C12", "C08"}, Pos: p.posStr(fn.Pos()), Func: funcLabel(fn), Nontrivial: true}
+		var bad []string
+		for _, rt := range returnsOf(fn) {
+			if ea.isFailureReturn(fn, rt) {
+				continue
+			}
+			dom := false
+			for _, c := range applies {
+				if instrDominates(c, rt) {
+					dom = true
+				}
+			}
+			if !dom {
+				bad = append(bad, p.at(rt)+": success is returned although the rewrite was not put in place")
+			}
+		}
+		if len(bad) > 0 {
+			ob.Status, ob.Msg, ob.Path = Violated, "the method that applies a delete's rewrite can return success without having replaced or removed the segment's files: the caller reports messages as deleted that are still in the log", bad
+		} else {
+			ob.Status, ob.Msg = Discharged, "every success return lies behind an operation that put the rewrite in place (override, rename + remove, or removal of the emptied segment)"
+		}
+		obs = append(obs, ob)
+	}
 	if n == 0 {
 		obs = append(obs, Ob{Rule: "R20", Inst: "d:close-before-replace:" + owner.Obj().Name(), Props: []string{"C03", "C08", "C12"}, Pos: "-", Status: Undecided, Msg: "no method of " + owner.Obj().Name() + " changes the files of its own segment"})
 	}
@@ -1994,7 +2051,7 @@ func (p *Prog) pureFn(f *ssa.Function) bool {
 //       and not rewritten, which the next open rebuilds).
 func ruleR40(p *Prog) []Ob {
 	var obs []Ob
-	props := []string{"C06", "C05", "C01", "C14"}
+	props := []string{"C06", "C05", "C01", "C14", "C11", "C12", "C17", "C20"}
 	frozen := map[string]string{
 		"(segment.Segment).Recover|" + pkgIndex + ".GetVersion": "an unreadable version leaves VUnknown: the index is removed, not rewritten, and rebuilt by the next open",
 	}
